@@ -11,6 +11,7 @@ Record cset := {
   c_changes : list change;  (* the writes of the batch, sorted by key *)
   c_result : kv;            (* base with the changes applied *)
   c_parent : option N;      (* nearest overlay the session was layered on *)
+  c_seqn : N;               (* the store's commit count when the session was taken *)
   c_anc : list N;           (* live ancestors recorded at creation, nearest first *)
   c_status : ostatus;
   c_held : bool;            (* the caller still owns the object *)
@@ -43,10 +44,12 @@ Fixpoint update (cs : list (N * cset)) (id : N) (f : cset -> cset) : list (N * c
 
 Definition set_status (s : ostatus) (held : bool) (c : cset) : cset :=
   {| c_base := c_base c; c_changes := c_changes c; c_result := c_result c; c_parent := c_parent c;
+     c_seqn := c_seqn c;
      c_anc := c_anc c; c_status := s; c_held := held; c_overlay := c_overlay c |}.
 
 Definition set_overlay (c : cset) : cset :=
   {| c_base := c_base c; c_changes := c_changes c; c_result := c_result c; c_parent := c_parent c;
+     c_seqn := c_seqn c;
      c_anc := c_anc c; c_status := c_status c; c_held := c_held c; c_overlay := true |}.
 
 Definition alive (st : state) (id : N) : bool :=
@@ -124,7 +127,7 @@ Definition finish (st : state) (id : N) (m : list N) (batch : list (key * option
   let base := view st m in
   let ch := writes_of batch in
   let c := {| c_base := base; c_changes := ch; c_result := apply base ch;
-              c_parent := hd_error m; c_anc := m; c_status := Live; c_held := true;
+              c_parent := hd_error m; c_seqn := seqn st; c_anc := m; c_status := Live; c_held := true;
               c_overlay := false |} in
   {| cur := cur st; hist := hist st; max_len := max_len st; seqn := seqn st; marker := marker st;
      csets := (id, c) :: csets st |}.
@@ -151,6 +154,16 @@ Inductive commit_out := COk | CStale | CParent | CDeferred | CUnknown.
 
 (* commit of a finished session or overlay.  [busy]: other sessions are alive and the commit is
    the non-blocking flavour, so the change set is handed back. *)
+(* A change set without a parent overlay is valid only against the very commit count it was
+   prepared on: the same key/value set can come back (delete and re-insert, commit and rollback)
+   while the pages behind it have changed.  A change set with a parent is positioned by the marker
+   of the last committed overlay. *)
+Definition stale_count (st : state) (c : cset) : bool :=
+  match c_parent c with
+  | None => negb (N.eqb (seqn st) (c_seqn c))
+  | Some _ => false
+  end.
+
 Definition commit (st : state) (id : N) (busy : bool) : state * commit_out :=
   match find (csets st) id with
   | None => (st, CUnknown)
@@ -165,7 +178,7 @@ Definition commit (st : state) (id : N) (busy : bool) : state * commit_out :=
         else true in
       if negb parent_ok then (drop st id, CParent)
       else if busy then (st, CDeferred)
-      else if negb (kv_eqb (cur st) (c_base c)) then (drop st id, CStale)
+      else if negb (kv_eqb (cur st) (c_base c)) || stale_count st c then (drop st id, CStale)
       else
         ({| cur := c_result c;
             hist := push_hist (max_len st) (hist st) (cur st);
